@@ -138,6 +138,9 @@ func NewWS(config *ConfigWS, internal *InternalConfig) (Provider, error) {
 	l.http = &http.Server{
 		Addr:    ":" + config.transport.Port,
 		Handler: l,
+		// a socket that does not even send its upgrade request is closed like one that does not send
+		// its CONNECT (the session manager gives that one and a half times the connect timeout)
+		ReadHeaderTimeout: time.Duration(internal.ConnectTimeout) * time.Second * 3 / 2,
 	}
 
 	// initialize upgrader with custom callback for protocol validation
